@@ -660,6 +660,46 @@ Proof.
   - destruct (passoc q parent); [|reflexivity]. rewrite (IH H Hn). reflexivity.
 Qed.
 
+(* the repaired connection step: members the port does not have are refused, everything else is the pairing *)
+Lemma extra_members_nil {A} (child : scope) (parent : list (path * A)) :
+  extra_members child parent = [] <-> (forall p, In p (map fst parent) -> In p (map fst child)).
+Proof.
+  unfold extra_members. split.
+  - intros H p Hp. destruct (pmem p child) eqn:E.
+    + unfold pmem in E. destruct (passoc p child) eqn:E2; [|discriminate].
+      destruct (passoc_None p child) as [_ X]. destruct (in_dec (list_eq_dec String.string_dec) p (map fst child)) as [I|I]; [exact I|].
+      rewrite (X I) in E2. discriminate.
+    + exfalso. assert (In p (filter (fun p => negb (pmem p child)) (map fst parent))) by (apply filter_In; split; [exact Hp|rewrite E; reflexivity]).
+      rewrite H in H0. exact H0.
+  - intros H. destruct (filter (fun p => negb (pmem p child)) (map fst parent)) as [|q l] eqn:E; [reflexivity|].
+    assert (Hq : In q (filter (fun p => negb (pmem p child)) (map fst parent))) by (rewrite E; left; reflexivity).
+    apply filter_In in Hq. destruct Hq as [Hq1 Hq2]. apply H in Hq1. unfold pmem in Hq2.
+    destruct (passoc q child) eqn:E2; [discriminate|]. apply passoc_None in E2. contradiction.
+Qed.
+
+Lemma replace_bundle_conn_checked_ok {A} (child : scope) (parent : list (path * A)) cs :
+  replace_bundle_conn_checked child parent = Ok cs ->
+  replace_bundle_conn child parent = Ok cs /\ (forall p, In p (map fst parent) -> In p (map fst child)).
+Proof.
+  unfold replace_bundle_conn_checked. destruct (extra_members child parent) eqn:E; [|discriminate].
+  intros H. split; [exact H|apply extra_members_nil; exact E].
+Qed.
+
+Lemma replace_bundle_conn_checked_extra {A} (child : scope) (parent : list (path * A)) p :
+  In p (map fst parent) -> ~ In p (map fst child) -> replace_bundle_conn_checked child parent = Error EExtra.
+Proof.
+  intros Hp Hn. unfold replace_bundle_conn_checked. destruct (extra_members child parent) eqn:E; [|reflexivity].
+  exfalso. apply Hn. apply (proj1 (extra_members_nil child parent) E). exact Hp.
+Qed.
+
+Lemma replace_bundle_conn_checked_total {A} (child : scope) (parent : list (path * A)) :
+  (forall p, In p (map fst child) <-> In p (map fst parent)) -> exists cs, replace_bundle_conn_checked child parent = Ok cs.
+Proof.
+  intros H. unfold replace_bundle_conn_checked.
+  rewrite (proj2 (extra_members_nil child parent)) by (intros p Hp; apply H; exact Hp).
+  apply replace_bundle_conn_total. intros p Hp. apply H. exact Hp.
+Qed.
+
 Lemma sassoc_NoDup k v (l : list (string * string)) : NoDup (map fst l) -> In (k, v) l -> sassoc k l = Some v.
 Proof.
   induction l as [|[a b] xs IH]; [contradiction|]. cbn [map fst sassoc]. intros N [H|H].
